@@ -180,6 +180,8 @@ class FaultHandlerOverrideTlv(AbstractTlvBase):
             raise TlvTypeMissmatch(
                 fault_handler_ovr_tlv.tlv.tlv_type, FaultHandlerOverrideTlv.TLV_TYPE
             )
+        if len(fault_handler_ovr_tlv.tlv.value) < 1:
+            raise BytesTooShortError(1, 0)
         fault_handler_ovr_tlv.condition_code = (
             fault_handler_ovr_tlv.tlv.value[0] & 0xF0
         ) >> 4
@@ -190,6 +192,8 @@ class FaultHandlerOverrideTlv(AbstractTlvBase):
     def from_tlv(cls, cfdp_tlv: CfdpTlv) -> FaultHandlerOverrideTlv:
         if cfdp_tlv.tlv_type != cls.TLV_TYPE:
             raise TlvTypeMissmatch(cfdp_tlv.tlv_type, cls.TLV_TYPE)
+        if len(cfdp_tlv.value) < 1:
+            raise BytesTooShortError(1, 0)
         fault_handler_tlv = cls.__empty()
         fault_handler_tlv.tlv = cfdp_tlv
         fault_handler_tlv.condition_code = (cfdp_tlv.value[0] >> 4) & 0x0F
@@ -305,6 +309,8 @@ class FileStoreRequestBase:
             the third value is the length of the full TLV packet
         """
         value_idx = 0
+        if len(raw_bytes) < 1:
+            raise BytesTooShortError(1, 0)
         action_code_as_int = (raw_bytes[value_idx] >> 4) & 0x0F
         try:
             action_code = FilestoreActionCode(action_code_as_int)
